@@ -19,7 +19,8 @@ RULE = ("histories through the public cesium API: 1-3 index channels x 0-3 data 
         "1-4 writer sessions at disjoint times (35% out of time order incl. before existing data, contiguous writers, "
         "writer start 0/1/5 ns before the first sample), frames of 1-8 samples, spacing {1,2,7,1000} ns, explicit commits at "
         "random points or auto-commit, uncommitted tails, file-size caps {default,40,64,100,200,1000} B forcing rollover, "
-        "groups that do not write their index, Reopen; 10% with one illegal step; DB.Read of 1-3 channels interleaved with "
+        "groups that do not write their index, zero-length samples on string/json channels (preferably last in a frame/domain), "
+        "Reopen; 10% with one illegal step; DB.Read of 1-3 channels interleaved with "
         "the history (also while a writer holds uncommitted data) and 4-10 final reads repeated after Close+Open; range ends "
         "from sample stamps, +-1, writer starts, 0, MAX. Non-trivial = >=2 committed sessions or a rollover-size cap, and a "
         "read whose range end lies strictly between two returned/stored samples or that returns >=2 series; distinct by hash.")
